@@ -36,6 +36,7 @@ type Exec struct {
 	heapElemType map[string]types.Type
 	inHandler  int // >0 while deferred calls are being executed
 	nextFrameDeferred bool // the next inlined frame is the function of a defer statement
+	orphanLoops map[int]string // reference loop ordinals (and signatures) that no loop of the function itself matches
 	instDone   map[string]bool
 	qhyps      []qhyp // quantified hypotheses that can be instantiated at goal constants
 }
@@ -129,6 +130,7 @@ type Frame struct {
 	inPanicDefers bool
 	deferredDirectly bool // this frame runs a function called by a defer statement
 	inRecoverBlock   bool // executing the synthetic recover block (return after a recovered panic)
+	adoptsLoops      bool // inlined helper whose loops carry `loop N` clauses of the function under contract
 	loopCtxs map[*ssa.BasicBlock]*loopCtx
 }
 
@@ -272,7 +274,32 @@ func (ex *Exec) newFrame(fn *ssa.Function, top bool) *Frame {
 	fr := &Frame{ex: ex, fn: fn, regs: map[ssa.Value]Val{}, isTop: top, direct: map[*ssa.Alloc]bool{}}
 	fr.loops = analyzeLoops(fn)
 	if top {
-		remapLoops(fn, fr.loops)
+		ex.orphanLoops = remapLoops(fn, fr.loops)
+	} else if len(ex.orphanLoops) > 0 && len(fr.loops.heads) > 0 {
+		// a loop of the function under contract that moved into this (uncontracted, inlined)
+		// helper keeps its `loop N` clauses: matched by signature with the reference loops
+		// that no longer exist in the function itself. The clauses still have to be proved.
+		sigs := loopSigs(fn, fr.loops)
+		next := 2000
+		for h, ord := range fr.loops.heads {
+			adopted := 0
+			if ord >= 1 && ord <= len(sigs) {
+				for b, rs := range ex.orphanLoops {
+					if rs == sigs[ord-1] {
+						adopted = b
+					}
+				}
+			}
+			if adopted > 0 {
+				fr.loops.heads[h] = adopted
+				fr.adoptsLoops = true
+				delete(ex.orphanLoops, adopted)
+				ex.cx.note("loop %d of the contract of %s is applied to the loop that moved into the helper %s", adopted, ex.fn.Name(), fn.Name())
+			} else {
+				next++
+				fr.loops.heads[h] = next
+			}
+		}
 	}
 	for _, b := range fn.Blocks {
 		for _, ins := range b.Instrs {
@@ -587,7 +614,7 @@ func (fr *Frame) edge(from, to *ssa.BasicBlock, st *State, cond Term, incoming m
 	ex.edgeFrom[s2] = from
 	// leaving a loop: exit invariants
 	for h, ord := range fr.loops.heads {
-		if fr.loops.body[h][from] && !fr.loops.body[h][to] && fr.isTop && ex.fc != nil && len(ex.fc.LoopExit[ord]) > 0 {
+		if fr.loops.body[h][from] && !fr.loops.body[h][to] && (fr.isTop || fr.adoptsLoops) && ex.fc != nil && len(ex.fc.LoopExit[ord]) > 0 {
 			s3 := st.clone()
 			s3.reach = ex.cx.name("r", and(st.reach, cond))
 			fr.exitLoop(h, ord, s3, from)
@@ -1352,7 +1379,7 @@ var baselineLoopsLoaded bool
 // a loop added), the loops are matched with the reference loops by signature; a loop without a
 // match gets an ordinal no clause refers to (its invariant is `true`). With the same number of
 // loops the ordinals are kept as they are.
-func remapLoops(fn *ssa.Function, li *loopInfo) {
+func remapLoops(fn *ssa.Function, li *loopInfo) map[int]string {
 	if !baselineLoopsLoaded {
 		baselineLoopsLoaded = true
 		if b, err := os.ReadFile(filepath.Join(verifDir(), "baseline", "loops.json")); err == nil {
@@ -1361,7 +1388,7 @@ func remapLoops(fn *ssa.Function, li *loopInfo) {
 	}
 	ref, ok := baselineLoops[fn.String()]
 	if !ok || len(ref) == len(li.heads) {
-		return
+		return nil
 	}
 	cur := loopSigs(fn, li)
 	taken := map[int]bool{}
@@ -1384,4 +1411,11 @@ func remapLoops(fn *ssa.Function, li *loopInfo) {
 			li.heads[h] = next
 		}
 	}
+	orphans := map[int]string{}
+	for ri, rs := range ref {
+		if !taken[ri] {
+			orphans[ri+1] = rs
+		}
+	}
+	return orphans
 }
